@@ -1,2 +1,3 @@
+import QuicProofs.Bridge.Recovery
 import QuicProofs.Bridge.VarInt
 import QuicProofs.Props.C05VarInt
